@@ -910,6 +910,16 @@ func (c *FnCtx) contractMods(fc *FuncContract, key string, ms *modSet) {
 			ms.heap["G:"+m] = g.Sort
 			continue
 		}
+		if strings.HasPrefix(m, "allmaps(") && strings.HasSuffix(m, ")") {
+			inner := strings.TrimSuffix(strings.TrimPrefix(m, "allmaps("), ")")
+			if mt := c.designatorMapType(inner, fc, key, pkgT); mt != nil {
+				ks, vs := d.sortOf(mt.Key()), d.sortOf(mt.Elem())
+				ms.heap["MD:"+mapTypeName(mt)] = arraySort(sV, arraySort(ks, sBool))
+				ms.heap["MV:"+mapTypeName(mt)] = arraySort(sV, arraySort(ks, vs))
+				continue
+			}
+			panic(toolErr("cannot resolve %q of %s for loop havoc", m, key))
+		}
 		if strings.HasSuffix(m, "[*]") {
 			// any map of the type of that expression: resolve the field type syntactically (x.f[*] or T.f[*])
 			base := strings.TrimSuffix(m, "[*]")
@@ -961,6 +971,11 @@ func (c *FnCtx) designatorStruct(base string, fc *FuncContract, key string, pkgT
 		t = c.calleeVarType(parts[0], fc, key)
 	}
 	if t == nil {
+		if n := c.e.findNamedStruct(parts[0], pkgT); n != nil {
+			t = n
+		}
+	}
+	if t == nil {
 		return nil
 	}
 	for _, p := range parts[1:] {
@@ -983,6 +998,26 @@ func (c *FnCtx) designatorStruct(base string, fc *FuncContract, key string, pkgT
 }
 
 func (c *FnCtx) designatorMapType(base string, fc *FuncContract, key string, pkgT *types.Package) *types.Map {
+	if strings.HasSuffix(base, "]") {
+		// m[k] where m is a map of maps
+		depth := 0
+		for j := len(base) - 1; j >= 0; j-- {
+			if base[j] == ']' {
+				depth++
+			}
+			if base[j] == '[' {
+				depth--
+				if depth == 0 {
+					if outer := c.designatorMapType(base[:j], fc, key, pkgT); outer != nil {
+						mt, _ := outer.Elem().Underlying().(*types.Map)
+						return mt
+					}
+					return nil
+				}
+			}
+		}
+		return nil
+	}
 	i := strings.LastIndex(base, ".")
 	if i < 0 {
 		if t := c.calleeVarType(base, fc, key); t != nil {
